@@ -81,6 +81,20 @@ pub enum PersistentStorageImpl {
 }
 
 impl PersistentStorageImpl {
+    /// Checks that a value written to a grave goods or last will topic can be parsed, so that a
+    /// malformed registration is rejected before it replaces the previous one in the store.
+    pub fn check_registration(key: &Key, value: &ValueEntry) -> PersistenceResult<()> {
+        if key.starts_with(SYSTEM_TOPIC_ROOT_PREFIX) {
+            let value = value.as_ref().to_owned();
+            if is_grave_goods_topic(key) {
+                serde_json::from_value::<Option<GraveGoods>>(value)?;
+            } else if is_last_will_topic(key) {
+                serde_json::from_value::<Option<LastWill>>(value)?;
+            }
+        }
+        Ok(())
+    }
+
     pub async fn update_value(
         &self,
         key: &Key,
